@@ -179,7 +179,7 @@ impl<'a> ParameterList<'a> {
 
     pub(crate) fn get_locator_list(&self, pid: ParameterId) -> CdrResult<Vec<Locator>> {
         let mut locator_list = Vec::new();
-        let iterator = PidIterator::new(self.data, self.endianness()?);
+        let iterator = PidIterator::new(self.parameters(), self.endianness()?);
         for item in iterator {
             let (current_pid, pid_data) = item?;
             if current_pid == pid {
@@ -193,7 +193,7 @@ impl<'a> ParameterList<'a> {
     }
 
     fn seek_to_pid(&self, pid: ParameterId) -> CdrResult<Option<&'a [u8]>> {
-        let iterator = PidIterator::new(self.data, self.endianness()?);
+        let iterator = PidIterator::new(self.parameters(), self.endianness()?);
         for item in iterator {
             let (current_pid, pid_data) = item?;
             if current_pid == pid {
@@ -201,6 +201,12 @@ impl<'a> ParameterList<'a> {
             }
         }
         Ok(None)
+    }
+
+    /// The octets after the 4-octet encapsulation header (representation identifier and options),
+    /// which is not a parameter. `new` guarantees that the header is present.
+    fn parameters(&self) -> &'a [u8] {
+        &self.data[4..]
     }
 
     fn endianness(&self) -> CdrResult<Endianness> {
@@ -423,6 +429,22 @@ mod tests {
             locator_list: vec![Locator::new(11, 12, [1; 16]), Locator::new(21, 22, [2; 16])],
         };
         assert_eq!(from_bytes(&bytes).unwrap(), expected);
+    }
+
+    #[test]
+    fn deserialize_test_discovery_data_big_endian_header_is_not_a_parameter() {
+        // PL_CDR_BE: the header 00 02 00 00 must not be read as pid 2 with length 0
+        let bytes = [
+            0x00, 0x02, 0x00, 0x00, // PL_CDR_BE
+            0x00, 0x02, 0x00, 0x04, // pid 2, Length: 4
+            0x00, 0x00, 0x00, 0x07, // value
+            0x00, 0x16, 0x00, 4, // PID_VENDORID
+            73, 74, 0x00, 0x00, // VendorId
+            0x00, 0x01, 0x00, 0x00, // PID_SENTINEL
+        ];
+        let pl = ParameterList::new(&bytes).unwrap();
+        assert_eq!(pl.get_non_optional_parameter::<i32>(2), Ok(7));
+        assert_eq!(pl.get_non_optional_parameter::<[u8; 2]>(0x16), Ok([73, 74]));
     }
 
     #[test]
